@@ -45,7 +45,13 @@ RULE = ("hierarchies = every C3-valid base assignment over <=4 classes in which 
         "tuple / single; on_setattr list / tuple; these= dict / OrderedDict; make_class list / tuple / dict),"
         " each user-kept object mutated after class creation and every view re-read (fields, fields_dict, "
         "every class of the hierarchy, subclasses defined before and after the mutation; "
-        "validators/converters/hooks are probed by calling them); history of the class object before the "
+        "validators/converters/hooks are probed by calling them); an EMPTY these= ({} / OrderedDict(); make_class [] / () / {}) over a "
+        "body that still holds attr.ib()s / annotations, also with the names of inherited fields; an "
+        "introspection-order history on EVERY case (a deterministic function of the case: none / root-to-leaf / "
+        "nearest-first / shuffled; fields_dict, fields, has, __match_args__ in rotating order on each ancestor and "
+        "on a sibling subclass of the nearest base BEFORE the class under test is looked at; afterwards fields_dict "
+        "must agree with fields for every class of the hierarchy, asked leaf-to-root and root-to-leaf); "
+        "history of the class object before the "
         "decoration under test (harness-only; the expected tuple is a function of the body): a decoration "
         "attempt attrs refuses after looking at the body (cache_hash without hashing / frozen with on_setattr"
         " / non-bool hash / cache_hash with init=False) then the valid one on the same class object, a "
@@ -58,7 +64,7 @@ ASSUMPTIONS = [
     "sorted(key=counter) is modelled by a stable insertion sort (proved to sort: C07_counter_sorted)",
     "the user's field_transformer is an input: the model applies the same list function the harness installs",
     "Attribute immutability and metadata/validator/these isolation are observed on the real objects (constant in the model)",
-    "the model is a function of the class body and decorator arguments: histories of the class object (refused earlier decoration, slotted build first, shared body objects) are harness-only variation",
+    "the model is a function of the class body and decorator arguments: histories of the class object (refused earlier decoration, slotted build first, shared body objects) and the order in which the classes of the hierarchy were introspected before the class under test are harness-only variation",
     "the defining class of a survivor is observed through a metadata tag / marker annotation type placed by the harness",
     "the MRO collector reads each class's own __attrs_attrs__ (post-K07a repair); the legacy collector's and has()'s getattr lookup is modelled as 'first class of base's MRO that has its own tuple'",
 ]
@@ -115,6 +121,12 @@ def _views(case, built, leaf):
             agree = agree and getattr(fs, n) is a and a.name == n
         except AttributeError:
             agree = False
+    # ... and the same agreement for every class of the hierarchy (asked after the class under test, twice)
+    for cls in list(reversed(built["classes"])) + list(built["classes"]):
+        if not attr.has(cls):
+            continue
+        fs2, fd2 = attr.fields(cls), attr.fields_dict(cls)
+        agree = agree and list(fd2) == [a.name for a in fs2] and all(fd2[a.name] is a for a in fs2)
     obs["dictAgree"] = bool(agree)
     obs["has"] = [bool(attr.has(c)) for c in built["classes"]]
     obs["matchArgs"] = list(getattr(leaf, "__match_args__", ("<absent>",)))
@@ -278,9 +290,69 @@ def observe(case):
         anns = cls.__dict__.get("__annotations__", {})
         if c["items"] and any(i["ann"] is not None for i in c["items"]):
             B.check_annotations(c, anns)
+    introspect_first(case, built)
     obs.update(_views(case, built, built["classes"][-1]))
     obs["twins"] = twins
     return obs
+
+
+INTRO_MODES = ["none", "root_to_leaf", "nearest_first", "shuffled", "root_to_leaf"]
+
+
+def intro_plan(case):
+    """(mode, order of ancestor ids, order of the introspection calls) -- a deterministic function of the case, so
+    every case (enumerated families included) carries an introspection history and replays reproduce it"""
+    h = int(case_digest(case), 16)
+    n = len(case["classes"])
+    mode = INTRO_MODES[h % len(INTRO_MODES)]
+    anc = [m for m in case["classes"][-1]["mro"][1:]]
+    if mode == "root_to_leaf":
+        order = list(reversed(anc))
+    elif mode == "nearest_first":
+        order = list(anc)
+    elif mode == "shuffled":
+        import random
+        order = list(anc)
+        random.Random(h).shuffle(order)
+    else:
+        order = []
+    ops = ["fields_dict", "fields", "has", "match_args"]
+    r = (h // 7) % 4
+    return mode, order, ops[r:] + ops[:r], bool((h // 31) % 2)
+
+
+def case_digest(case):
+    import hashlib
+    import json
+    return hashlib.sha1(json.dumps(case["classes"], sort_keys=True).encode()).hexdigest()[:12]
+
+
+def introspect_first(case, built):
+    """history: introspect the ancestors (and a sibling subclass of the nearest base) BEFORE the class under test is
+    looked at for the first time"""
+    mode, order, ops, sibling = intro_plan(case)
+    targets = [built["classes"][m] for m in order]
+    if sibling and len(built["classes"]) > 1 and mode != "none":
+        base = built["classes"][case["classes"][-1]["mro"][1]] if len(case["classes"][-1]["mro"]) > 1 else None
+        if base is not None:
+            try:
+                targets.insert(len(targets) // 2, attr.s(repr=False, eq=False, collect_by_mro=True)(
+                    type("Sibling", (base,), {"sib": attr.ib(default=0, kw_only=True)})))
+            except BaseException:  # noqa: BLE001
+                pass
+    for cls in targets:
+        for op in ops:
+            try:
+                if op == "fields_dict":
+                    attr.fields_dict(cls)
+                elif op == "fields":
+                    attr.fields(cls)
+                elif op == "has":
+                    attr.has(cls)
+                else:
+                    getattr(cls, "__match_args__", None)
+            except BaseException:  # noqa: BLE001 -- plain classes without attrs ancestors refuse; that is fine here
+                pass
 
 
 # --------------------------------------------------------------------------------------------- hierarchy shapes
@@ -411,7 +483,13 @@ def rand_cls(rng, kind, mro, k, rich, pc):
     names = rng.choice(ordered_subsets(POOL))
     om = {n: rand_opts(rng, k, rich, n) for n in names}
     c = simple_cls(kind, mro, k, names, om)
-    style = rng.choice(["ib", "ib", "ib_perm", "annot", "annot_mixed", "these", "these_body", "make_class"])
+    style = rng.choice(["ib", "ib", "ib_perm", "annot", "annot_mixed", "these", "these_body", "make_class",
+                        "these_empty"])
+    these_empty = style == "these_empty"
+    if these_empty:
+        # an EMPTY these= (a computed mapping that came out empty) over a body that still holds attr.ib()s /
+        # annotations (possibly with the names of inherited fields): the class declares no own field
+        style = rng.choice(["ib", "ib_perm", "annot", "annot_mixed"])
     if style == "ib_perm" and len(names) > 1:
         its = c["items"]
         rng.shuffle(its)
@@ -464,6 +542,10 @@ def rand_cls(rng, kind, mro, k, rich, pc):
                 for e in c["these"]:
                     e[1] = dict(DEFAULT_OPTS)
                 pc["via"] = "make_class_list"
+    if these_empty:
+        c["these"] = []
+        if c["kind"] == "attrS" and rng.random() < 0.5:
+            pc["ck"] = dict(pc.get("ck", {}), these=rng.choice(["dict", "odict"]))
     if rich and rng.random() < 0.15:
         c["kwOnly"] = True
     return c
@@ -781,6 +863,8 @@ def dist(case, obs):
         "err": "none" if not o.get("err") else f"{'leaf' if o['err'][0] == len(cs) - 1 else 'base'}:{o['err'][1]}",
         "twins": len(case["twins"]),
         "kw_only_cls": last["kwOnly"],
+        "intro_order": intro_plan(case)[0],
+        "these_empty_over_body": last["these"] == [] and bool(last["items"]),
         "tuple_method_field": any(f["name"] in ("count", "index") for f in o.get("fields", [])),
         "renamed": bool(info.get("names")),
         "history_leaf": case["cfg"]["per"][-1].get("history", "none"),
